@@ -72,6 +72,13 @@ GEN = [
     ('datetime', 'zh-cn', 0, '明天下午三点到五点'), ('datetime', 'fr-fr', 0, 'avant demain 15h'), ('datetime', 'es-es', 0, 'desde el 5 de mayo'), ('datetime', 'de-de', 0, 'vor dem 5. Mai'),
     ('datetime', 'nl-nl', 0, 'sinds 5 mei'), ('datetime', 'pt-br', 0, 'antes de 5 de maio'), ('datetime', 'it-it', 0, 'prima del 5 maggio'),
 ]
+CROSS_TEXTS = [('en-us', 'add 3kg of flour'), ('en-us', 'she is 20yo and owes $5.50'), ('en-us', 'run 5km then 10k more'), ('en-us', 'it was 30c at 10:30am on the 3rd'),
+               ('en-us', 'twenty percent of 12 dollars and 5 cents'), ('en-us', 'two thirds of a mile in 3 days'), ('en-us', '99% of 3.5 million euros'),
+               ('en-us', 'the second of 3 payments of 1,200.50 usd'), ('en-us', '5 feet 10 inches and 70 kilos at 98.6 degrees'), ('en-us', 'one and a half hours or 90 minutes'),
+               ('en-us', '-7 degrees celsius and 12 years old'), ('en-us', 'half a dozen eggs cost 3 bucks'), ('zh-cn', '三点五公斤和百分之二十'), ('zh-cn', '他今年20岁，有五十块钱'),
+               ('zh-cn', '明天下午3点气温30度'), ('fr-fr', '3kg de farine et 20% de 12 euros'), ('fr-fr', 'il a 20 ans et mesure 1,80 m'), ('es-es', '3kg de harina y 20% de 12 euros'),
+               ('es-es', 'tiene 20 años y mide 1,80 m'), ('pt-br', '3kg de farinha e 20% de 12 reais'), ('nl-nl', '3kg meel en 20% van 12 euro'), ('de-de', '3kg Mehl und 20% von 12 Euro'),
+               ('it-it', '3kg di farina e 20% di 12 euro'), ('pt-br', 'ele tem 20 anos e 1,80 m')]
 VCLOCKS = [dt.datetime(1971, 2, 4, 3, 0), dt.datetime(2016, 2, 29, 12, 0), dt.datetime(2093, 12, 31, 23, 30)]
 
 
@@ -104,6 +111,7 @@ def build_pool(seed, tier):
     bykind = collections.defaultdict(list)
     for c in cand:
         bykind[(c[0], c[1])].append(c)
+    bykind_all = set(bykind)
     cells = sorted(bykind)
     while len(pool) < n_corpus and cells:
         for cell in list(cells):
@@ -116,6 +124,13 @@ def build_pool(seed, tier):
                 break
     for k, cu, opt, q in GEN:
         pool.append([k, cu, opt, q, '2016-11-07T10:30:00' if k == 'datetime' else None])
+    # the SAME text sent to every model kind of its culture (state shared between recognisers: extractors, parsers and
+    # configuration objects of one package are reused by the models of another)
+    cross = CROSS_TEXTS if tier == 'thorough' else CROSS_TEXTS[::2]
+    for cu, q in cross:
+        for kind in ('number', 'ordinal', 'percentage', 'currency', 'dimension', 'temperature', 'age', 'datetime'):
+            if (kind, cu) in bykind_all:
+                pool.append([kind, cu, 0, q, '2016-11-07T10:30:00' if kind == 'datetime' else None])
     seen, out = set(), []
     for t in pool:
         key = json.dumps(t, ensure_ascii=False)
